@@ -397,10 +397,8 @@ func init() {
 					e.flag("one-pointer-target-referenced-twice")
 				}
 			}
-			if first != nil && arg.Pt != nil && *arg.Pt == *first {
-				arg.Pt = first
-				e.flag("one-pointer-target-referenced-twice")
-			}
+			// (Pt is left alone: a case constraint on Pt.S rewrites the target in place, which would
+			// then legitimately show through every alias - no longer the same JSON)
 		}
 		// mutate the caller's object right after it was stored
 		e.onStored = func(arg *Doc) {
